@@ -27,13 +27,87 @@ def keepsUp : St → List Ev → Bool
 
 def consumed (outs : List ReadOut) : Nat := (outs.filter (· ≠ .empty)).length
 
+theorem consumed_cons (o : ReadOut) (outs : List ReadOut) :
+    consumed (o :: outs) = (if o = .empty then 0 else 1) + consumed outs := by
+  unfold consumed
+  by_cases h : o = .empty
+  · simp [h]
+  · simp [h]; omega
+
+/-- generalisation of C03.in_order_once to any start state -/
+theorem in_order_aux (evs : List Ev) : ∀ s, keepsUp s evs = true →
+    (s.inbox ++ arrivals evs).drop (consumed (readOuts s evs)) = (run s evs).inbox ∧
+    consumed (readOuts s evs) ≤ s.inbox.length + (arrivals evs).length := by
+  induction evs with
+  | nil => intro s _; simp [readOuts, consumed, arrivals, run]
+  | cons e r ih =>
+    intro s hk
+    simp only [keepsUp, Bool.and_eq_true] at hk
+    obtain ⟨hk1, hk2⟩ := hk
+    obtain ⟨ih1, ih2⟩ := ih _ hk2
+    rw [run_cons]
+    cases e with
+    | arrive c =>
+      simp only [decide_eq_true_eq] at hk1
+      have hs : step s (.arrive c) = { s with inbox := s.inbox ++ [c] } := arrive_of_lt c hk1
+      simp only [readOuts, arrivals]
+      rw [← ih1]
+      rw [hs] at ih2 ⊢
+      simp only [List.append_assoc, List.cons_append, List.nil_append, List.length_append, List.length_cons,
+        List.length_nil] at ih2 ⊢
+      exact ⟨trivial, by omega⟩
+    | read =>
+      simp only [readOuts, arrivals, consumed_cons]
+      rw [← ih1]
+      cases hi : s.inbox with
+      | nil =>
+        have hs : read s = (s, .empty) := read_nil hi
+        simp only [step, hs, hi, if_true, Nat.zero_add] at ih2 ⊢
+        exact ⟨trivial, ih2⟩
+      | cons c rest =>
+        obtain ⟨i, g, t, a, g', t', a', rr, hsh⟩ := read_shape s
+        have hne : (read s).2 ≠ .empty := by
+          rcases read_cases hi with ⟨u, gs, _, _, h⟩ | ⟨_, h⟩ <;> rw [h] <;> simp
+        have hin : (read s).1.inbox = rest := by
+          obtain ⟨g, t, a, g', t', a', hp⟩ := readPre_shape s c rest
+          rcases read_cases hi with ⟨u, gs, _, _, h⟩ | ⟨_, h⟩ <;> rw [h, hp]
+        simp only [step, hin, if_neg hne] at ih2 ⊢
+        simp only [List.cons_append, List.length_cons]
+        rw [Nat.add_comm 1, List.drop_succ_cons]
+        exact ⟨rfl, by omega⟩
+    | flushAck =>
+      obtain ⟨i, k, ua, ia, rr, o, h⟩ := flushAck_shape s
+      simp only [readOuts, arrivals]
+      simp only [step, h] at ih1 ih2 ⊢
+      exact ⟨ih1, ih2⟩
+    | close =>
+      obtain ⟨i, k, ua, ia, rr, o, h⟩ := close_shape s
+      simp only [readOuts, arrivals]
+      simp only [step, h] at ih1 ih2 ⊢
+      exact ⟨ih1, ih2⟩
+    | arriveMeta n q =>
+      obtain ⟨b, h⟩ := arriveMeta_shape s n q
+      simp only [readOuts, arrivals]
+      simp only [step, h] at ih1 ih2 ⊢
+      exact ⟨ih1, ih2⟩
+    | readMeta =>
+      obtain ⟨b, a, h⟩ := readMeta_shape s
+      simp only [readOuts, arrivals]
+      simp only [step, h] at ih1 ih2 ⊢
+      exact ⟨ih1, ih2⟩
+    | resume =>
+      simp only [readOuts, arrivals]
+      simp only [step] at ih1 ih2 ⊢
+      exact ⟨ih1, ih2⟩
+
 /-- IN ORDER, ONCE: for every history in which the consumer keeps up, the non-empty read outcomes correspond one to one, in the
     broker's order, to the chunks that arrived; what has not been read yet is still queued, in order. -/
 theorem C03.in_order_once (ids : List DataID) (evs : List Ev) (h : keepsUp (initWith ids) evs = true) :
     let s := run (initWith ids) evs
     let outs := readOuts (initWith ids) evs
     (arrivals evs).drop (consumed outs) = s.inbox ∧ consumed outs ≤ (arrivals evs).length := by
-  sorry
+  have := in_order_aux evs (initWith ids) h
+  simpa using this
 
 /-- the alias tables are functional: one alias names one thing -/
 def TablesOK (s : St) : Prop :=
@@ -51,13 +125,24 @@ theorem C03.resolution (s : St) (c : WChunk) (rest : List WChunk) (r : RChunk) (
         match c.groups[i].ref with
         | .id d => r.groups[i].id = d
         | .alias a => alGet a (read s).1.idFwd = some r.groups[i].id) := by
-  sorry
+  rcases read_cases hin with ⟨u, gs, hu, hg, h⟩ | ⟨_, h⟩
+  · rw [h] at hr ⊢
+    simp only [ReadOut.chunk.injEq] at hr
+    subst hr
+    refine ⟨rfl, resolveGroups_points hg, ?_, ?_⟩
+    · cases hc : c.up with
+      | info u' => rw [hc] at hu; simp only [resolveUp, Option.some.injEq] at hu; exact hu.symm
+      | «alias» a => rw [hc] at hu; exact hu
+    · intro i hi hj
+      exact resolveGroups_get hg i hi hj
+  · rw [h] at hr; cases hr
 
 /-- what the client has announced is never re-bound: tables only grow, existing aliases keep their meaning -/
 theorem C03.tables_stable (s : St) (e : Ev) (a x : Nat) :
     (alGet a s.upFwd = some x → alGet a (step s e).upFwd = some x) ∧
     (∀ d, alGet a s.idFwd = some d → alGet a (step s e).idFwd = some d) := by
-  sorry
+  obtain ⟨⟨m, h1⟩, ⟨m', h2⟩⟩ := step_grows s e
+  exact ⟨fun h => by rw [h1]; exact alGet_append_some m h, fun d h => by rw [h2]; exact alGet_append_some m' h⟩
 
 /-- a chunk that uses an alias the client never announced (not in its tables even after this read's own announcements) is
     reported as an error: it is not returned, never acknowledged, and it is consumed (it will not be delivered later either) -/
@@ -66,7 +151,21 @@ theorem C03.unknown_alias_is_error (s : St) (c : WChunk) (rest : List WChunk) (h
         ((∃ a, c.up = .alias a ∧ alGet a (read s).1.upFwd = none) ∨
          (∃ g ∈ c.groups, ∃ a, g.ref = .alias a ∧ alGet a (read s).1.idFwd = none))) ∧
     ((read s).2 = .errAlias → (read s).1.results = s.results ∧ (read s).1.inbox = rest) := by
-  sorry
+  rcases read_cases hin with ⟨u, gs, hu, hg, h⟩ | ⟨hn, h⟩
+  · rw [h]
+    refine ⟨⟨fun h' => (by cases h'), ?_⟩, fun h' => (by cases h')⟩
+    rintro (⟨a, hc, ha⟩ | ⟨g, hm, a, hr, ha⟩)
+    · have := (resolveUp_none (s := readPre s c rest)).mpr ⟨a, hc, ha⟩
+      rw [hu] at this; cases this
+    · have := (resolveGroups_none (s := readPre s c rest)).mpr ⟨g, hm, a, hr, ha⟩
+      rw [hg] at this; cases this
+  · rw [h]
+    refine ⟨⟨fun _ => ?_, fun _ => rfl⟩, fun _ => ?_⟩
+    · rcases hn with hn | hn
+      · exact .inl (resolveUp_none.mp hn)
+      · exact .inr (resolveGroups_none.mp hn)
+    · obtain ⟨g, t, a, g', t', a', hp⟩ := readPre_shape s c rest
+      rw [hp]; exact ⟨rfl, rfl⟩
 
 def metaArrivals (node : Nat) : List Ev → List Nat
   | [] => []
@@ -79,7 +178,11 @@ theorem C03.metadata_order (ids : List DataID) (evs : List Ev)
     (hcap : ∀ k, ((run (initWith ids) (evs.take k)).metaBox.length < cap)) :
     let s := run (initWith ids) evs
     s.metaAcks ++ s.metaBox.map (·.2) = (evs.filterMap fun e => match e with | .arriveMeta _ r => some r | _ => none) := by
-  sorry
+  have hf : (fun e : Ev => match e with | .arriveMeta _ r => some r | _ => none) = metaReq := by
+    funext e; cases e <;> rfl
+  have := run_metaView evs (initWith ids) hcap
+  simp only [metaView, initWith_metaAcks, initWith_metaBox, List.map_nil, List.append_nil, List.nil_append] at this
+  rw [hf]; exact this
 
 example : (readOuts (initWith [7]) [.arrive ⟨.info 3, 1, [⟨.id 7, []⟩, ⟨.id 9, [⟨1, [2]⟩]⟩]⟩, .read, .arrive ⟨.alias 1, 2, [⟨.alias 2, []⟩]⟩, .read, .arrive ⟨.alias 9, 3, []⟩, .read])
     = [.chunk ⟨3, 1, [⟨7, []⟩, ⟨9, [⟨1, [2]⟩]⟩]⟩, .chunk ⟨3, 2, [⟨9, []⟩]⟩, .errAlias] := by decide
